@@ -3,6 +3,7 @@ import Driver.C03
 import Driver.C04
 import Driver.C17
 import Driver.C14
+import Driver.Chan
 /-! nvdriver: line protocol. Each input line `<PROP> <tokens…>` is answered by exactly one line:
     `ok[ …]` | `diff …` (model and implementation disagree) | `specviol …` (the implementation's
     own answer violates the property predicate) | `bad-op`. -/
@@ -11,12 +12,20 @@ structure DS where
   c19 : Driver.C19.S := {}
   c03 : Driver.C03.S := {}
   c17 : Driver.C17.S := {}
+  chan : Driver.Chan.S := {}
 
 def dispatch (d : DS) (line : String) : DS × String :=
   match (line.trimAscii.toString.splitOn " ").filter (· ≠ "") with
   | "C19" :: rest => let (s, o) := Driver.C19.handle d.c19 rest; ({ d with c19 := s }, o)
   | "C03" :: rest => let (s, o) := Driver.C03.handle d.c03 rest; ({ d with c03 := s }, o)
   | "C17" :: rest => let (s, o) := Driver.C17.handle d.c17 rest; ({ d with c17 := s }, o)
+  | "C01" :: rest => let (s, o) := Driver.Chan.handle "C01" d.chan rest; ({ d with chan := s }, o)
+  | "C02" :: rest => let (s, o) := Driver.Chan.handle "C02" d.chan rest; ({ d with chan := s }, o)
+  | "C05" :: rest => let (s, o) := Driver.Chan.handle "C05" d.chan rest; ({ d with chan := s }, o)
+  | "C06" :: rest => let (s, o) := Driver.Chan.handle "C06" d.chan rest; ({ d with chan := s }, o)
+  | "C10" :: rest => let (s, o) := Driver.Chan.handle "C10" d.chan rest; ({ d with chan := s }, o)
+  | "C11" :: rest => let (s, o) := Driver.Chan.handle "C11" d.chan rest; ({ d with chan := s }, o)
+  | "C18" :: rest => let (s, o) := Driver.Chan.handle "C18" d.chan rest; ({ d with chan := s }, o)
   | "C14" :: rest => (d, Driver.C14.handle rest)
   | "C04" :: rest => (d, Driver.C04.handle rest)
   | "C08" :: rest => (d, Driver.C04.handle rest)
